@@ -92,7 +92,9 @@ func (vhost *VirtualHost) handleAutoDeleteQueue() {
 		//time.Sleep(5 * time.Second)
 		verifhook.Enter("vhost.autodelete")
 		verifhook.At("vhost.autodelete.beforeDelete")
-		vhost.DeleteQueue(queueName, false, false)
+		// by now the queue that asked for this may be gone and its name taken by another queue, or it may have
+		// consumers again: only an auto-delete queue that is unused is deleted
+		vhost.deleteQueue(queueName, true, false, true)
 		verifhook.Exit("vhost.autodelete")
 		verifhook.Taken("vhost.autodelete")
 	}
@@ -353,12 +355,19 @@ func (vhost *VirtualHost) loadBindings() {
 // DeleteQueue delete queue from virtual host and all bindings to that queue
 // Also queue will be removed from server storage
 func (vhost *VirtualHost) DeleteQueue(queueName string, ifUnused bool, ifEmpty bool) (uint64, error) {
+	return vhost.deleteQueue(queueName, ifUnused, ifEmpty, false)
+}
+
+func (vhost *VirtualHost) deleteQueue(queueName string, ifUnused bool, ifEmpty bool, onlyAutoDelete bool) (uint64, error) {
 	vhost.quLock.Lock()
 	defer vhost.quLock.Unlock()
 
 	qu := vhost.getQueue(queueName)
 	if qu == nil {
 		return 0, errors.New("not found")
+	}
+	if onlyAutoDelete && !qu.IsAutoDelete() {
+		return 0, errors.New("not an auto-delete queue")
 	}
 
 	var length, err = qu.Delete(ifUnused, ifEmpty)
